@@ -14,7 +14,7 @@ ASSUMPTIONS = [
     "numpy storage replaced by dtype=object arrays",
 ]
 BOUNDS = {
-    "quick": "structures pair, chain-3, pair+variable cost, chain-3+variable cost, triangle, each optionally with one external variable bound by a binary constraint; every complete assignment (choice; evaluated a second time from the same dict after the external variable changed) and every non-empty set of missing variables (choice)",
+    "quick": "objective min (all structures) and max (pair, pair+variable cost); structures pair, chain-3, pair+variable cost, chain-3+variable cost, triangle, each optionally with one external variable bound by a binary constraint; every complete assignment (choice; evaluated a second time from the same dict after the external variable changed) and every non-empty set of missing variables (choice)",
     "thorough": "quick + ternary, star-3, domain 3",
 }
 OUTSIDE = "more than 4 variables + 1 external, float finite costs, assignments with unknown extra keys"
@@ -32,6 +32,10 @@ def jobs(tier):
                 if ext and s in ("single_vcost",):
                     continue
                 out.append({"name": "%s-%s%s" % (s, infk, "-ext" if ext else ""), "spec": spec(s, "min"), "inf": infk, "ext": ext})
+    # a DCOP whose objective is max: the accounting does not depend on the objective
+    for s in ("pair", "pair_vcost"):
+        for infk in ("symint", "float"):
+            out.append({"name": "%s-max-%s" % (s, infk), "spec": spec(s, "max"), "inf": infk, "ext": False})
     if tier == "thorough":
         out.append({"name": "chain3-dom3-symint", "spec": spec("chain3", "min", dom=3), "inf": "symint", "ext": False})
     return out
